@@ -20,6 +20,7 @@ import (
 	"errors"
 	"fmt"
 	"regexp/syntax"
+	"sort"
 	"sync"
 )
 
@@ -141,7 +142,17 @@ func (d *typeDictionary) resolveTypedefs() []error {
 	// When resolve typedefs, we may need to look up other typedefs.
 	// We gather all typedefs into a slice so we don't deadlock on
 	// typeDict.
-	for _, td := range d.typedefs() {
+	//
+	// They are resolved in the order of their source positions, not in the
+	// order of map iteration: which typedef of a cycle (or of a chain that
+	// is too long) is the one reported must not vary from run to run.
+	tds := d.typedefs()
+	keys := make(map[*Typedef]string, len(tds))
+	for _, td := range tds {
+		keys[td] = Source(td) + " " + td.Name
+	}
+	sort.Slice(tds, func(i, j int) bool { return keys[tds[i]] < keys[tds[j]] })
+	for _, td := range tds {
 		errs = append(errs, td.resolve(d)...)
 	}
 	return errs
